@@ -45,7 +45,7 @@ Record pass := mkpass {
 }.
 
 Variable test : disk -> tout.                     (* the interestingness test: deterministic *)
-Definition interesting (d:disk) : bool := match test d with Exit z => Z.eqb z 0 | Timeout => false end.
+Definition interesting (d:disk) : bool := match test d with Exit z => Z.eqb z 0 | _ => false end.
 
 Record rcfg := mkrcfg {
   r_g : cfg;
@@ -67,14 +67,15 @@ Fixpoint chain (p:pass) (fuel:nat) (c:content) (s:St) : list St * bool :=   (* b
   end.
 
 Definition is_timeout (o:tout) := match o with Timeout => true | _ => false end.
-Definition exit_of (o:tout) : Z := match o with Exit z => z | Timeout => 0%Z end.
+Definition exit_of (o:tout) : Z := match o with Exit z => z | _ => 0%Z end.
+Definition is_norun (o:tout) := match o with NoRun => true | _ => false end.
 
 (* one candidate: transform on a private copy of the current set, then the test on that set *)
 Definition eval (p:pass) (d:disk) (f:nat) (s:St) : cand * content * St :=
   let c := getf d f in
   let '(res, c', s') := p_trans p c s in
   let out := match res with OK => test (upd d f c') | _ => Exit 0 end in
-  (mkc res (exit_of out) (is_timeout out) (negb (content_eqb c c')) (size c - size c'), c', s').
+  (mkc res (exit_of out) (is_timeout out) (negb (content_eqb c c')) (size c - size c') (is_norun out), c', s').
 
 Inductive fexit := FNormal | FPassBug | FAssert | FZero | FInsane | FFuel.
 
